@@ -23,8 +23,8 @@
 //   q -> Q:<IsDescendantOf(i,j)>;<LowestCommonAncestor(i,j)>;<Range(i,j)>;<RangeInMemory(i,j)>;
 //        <GetAllDescendants(i), in order>
 //        booleans t/f, lists comma separated (`-` empty), errors e<class> with the classes of
-//        coq/BlockTree/Model.v (1 start not found, 2 end not found, 3 start greater than end,
-//        4 nil block in range, 5 start is not an ancestor of end, 6 node not found,
+//        coq/BlockTree/Model.v (1 start not found -- also "start is not an ancestor of end",
+//        2 end not found, 3 start greater than end, 4 nil block in range, 6 node not found,
 //        7 number greater than highest, 8 number lower than root, 9 other), `panic`.
 package blocktree
 
@@ -181,8 +181,6 @@ func c15ErrClass(err error) string {
 		return "e3"
 	case errors.Is(err, ErrNilBlockInRange):
 		return "e4"
-	case strings.Contains(err.Error(), "not an ancestor"):
-		return "e5"
 	case errors.Is(err, ErrNodeNotFound):
 		return "e6"
 	case errors.Is(err, ErrNumGreaterThanHighest):
@@ -508,6 +506,7 @@ func c15Gen(r *vu.RNG, n int, emit func(string)) {
 	// the confirmed pruning witness: four children of the root, the last one finalised
 	emit("t 0 4 0.1.0.0 0.1.0.0 0.1.0.0 0.1.0.0 a1 a2 a3 a4 f4 s")
 	emit("t 0 3 0.1.0.0 0.1.1.0 0.1.2.0 a1 a2 a3 f3 s")
+	emit("t 0 5 0.1.0.0 0.1.0.0 0.1.0.0 0.1.0.0 0.1.0.0 a1 a2 a3 a4 a5 f2 s")
 	emit("t 5 6 0.6.0.0 1.7.0.0 1.7.0.1 1.7.0.2 0.6.1.3 5.7.1.3 a1 a2 a3 a4 a5 a6 s q2.3 q3.6 q1.6 q6.1 f5 s f6 s")
 	max := 5
 	if vu.Thorough() {
